@@ -1,5 +1,7 @@
 #[cfg(feature = "http-listener")]
 use http_listener::HttpListeningError;
+#[cfg(all(metrics_verif, feature = "http-listener"))]
+mod verif_tokio_net;
 #[cfg(any(feature = "http-listener", feature = "push-gateway"))]
 use std::future::Future;
 #[cfg(feature = "http-listener")]
